@@ -87,6 +87,8 @@ pub fn add_counters(rep: &mut Rep, w: &World) {
     rep.add("publishes_built_with_every_setter_called_twice", c.pubs_set_twice as i64);
     rep.add("resent_publishes_with_retain_and_properties", c.resent_with_options as i64);
     rep.add("inbound_publishes_with_every_forwardable_property", c.rich_inbound as i64);
+    rep.add("inbound_publishes_with_topic_alias_in_place_of_the_topic", c.alias_only_inbound as i64);
+    rep.add("publishes_with_multi_byte_characters_in_the_topic", c.utf8_topic_pubs as i64);
     rep.add("inbound_pubrel_with_reason_0x92", c.pubrel_not_found as i64);
     rep.add("acks_with_property_section_over_110_bytes", c.long_ack_props as i64);
     rep.add("inbound_acks_matched", c.inbound_acks_matched as i64);
